@@ -270,3 +270,15 @@ func withBait(d []byte) []byte {
 	copy(big[len(d)+n:cap(big)], bait)
 	return big
 }
+
+// values that do not fit a 32-bit int are produced at run time so that the checker also builds for
+// GOARCH=386 (C05 runs the int / uint readers there too); on 64-bit platforms they are the
+// constants their names say.
+var (
+	v40       int64  = 1 << 40
+	off40            = int(v40) // 1<<40 (64-bit) / 0 (32-bit)
+	vSentInt  int64  = -987654321987
+	sentInt          = int(vSentInt)
+	vSentUint uint64 = 987654321987
+	sentUint         = uint(vSentUint)
+)
